@@ -70,8 +70,15 @@ pub fn decode(mut src: &[u8]) -> io::Result<Vec<u8>> {
         let param = &mut params.params[x];
         let q = models.qual[usize::from(ctx)].decode(&mut src, &mut range_coder)?;
 
-        let j = usize::from(q);
-        dst[i] = param.quality_map().map(|map| map[j]).unwrap_or(q);
+        dst[i] = match param.quality_map() {
+            Some(map) => map.get(usize::from(q)).copied().ok_or_else(|| {
+                io::Error::new(
+                    io::ErrorKind::InvalidData,
+                    format!("invalid quality map symbol: {q}"),
+                )
+            })?,
+            None => q,
+        };
 
         ctx = fqz_update_context(param, q, &mut record);
 
